@@ -179,6 +179,136 @@ theorem dirstructure_rel_contained (root : Path) (hr : isAbs root = true) :
     (∀ names dirs, ensureRelDir root names = .ok dirs → ∀ d ∈ dirs, Inside root d) :=
   ⟨fun _ dirs h => dirstructure_contained root _ dirs hr h, fun _ dirs h => dirstructure_contained root _ dirs hr h⟩
 
+/-! ### Directory-structure helper as a stateful object: histories of calls on one tree
+
+`dhistory (newDirStructure root perm) calls` is everything handed to `EnsureDirectory` (created / chmod-ed /
+a file of that name replaced) while the calls `ChildDir`, `Ensure`, `EnsureAbsPath`, `EnsureRelPath`, `EnsureRelDir`
+are made in any order on any node of the tree, with arbitrary names. -/
+
+/-- The tree after a history of calls. -/
+def treeAfter (t : DTree) : List DCall → DTree
+  | [] => t
+  | c :: cs => treeAfter (dcall t c).1 cs
+
+theorem dwf_dcall {t : DTree} {root : Path} (hw : DWF t root) (c : DCall) : DWF (dcall t c).1 root := by
+  cases c with
+  | childDir h name perm =>
+    simp only [dcall]
+    split
+    · rename_i hh; exact dwf_childDir hw hh name perm
+    · exact hw
+  | ensure h => exact hw
+  | ensureAbs h p => exact hw
+  | ensureRel h rel => exact hw
+  | ensureRelDir h names => exact hw
+
+theorem dwf_treeAfter {t : DTree} {root : Path} (hw : DWF t root) (calls : List DCall) : DWF (treeAfter t calls) root := by
+  induction calls generalizing t with
+  | nil => exact hw
+  | cons c cs ih => exact ih (dwf_dcall hw c)
+
+/-- `EnsureAbsPath` on any node of a well-formed tree: everything it touches is inside the root. -/
+theorem ensureAbsPathT_contained {t : DTree} {root : Path} (hw : DWF t root) (hr : isAbs root = true) {h : Nat}
+    (hh : h < t.length) (dirPath : Path) (dirs : List (Path × Nat)) (hok : ensureAbsPathT t h dirPath = .ok dirs) :
+    ∀ d ∈ dirs, Inside root d.1 := by
+  obtain ⟨r', hsl, hres, h47⟩ := slashed_root hr
+  unfold ensureAbsPathT at hok
+  rw [topOf_eq_zero hw _ h hh hh] at hok
+  dsimp only at hok
+  rw [hw.2.1, hsl] at hok
+  have h0a : isAbs (t.pathOf 0) = true := by rw [hw.2.1]; exact hr
+  have h0i : resolve root <+: resolve (t.pathOf 0) := by rw [hw.2.1]; exact List.prefix_refl _
+  split at hok
+  · cases hok
+    exact ensureFrom_inside hw [] (by simp) 0 h0a h0i
+  · split at hok
+    · cases hok
+    · rename_i hpre
+      simp at hpre
+      obtain ⟨rel, hrel, hharm⟩ := scope_pass_rel hr hres h47 hpre
+      rw [hrel] at hok
+      cases hok
+      exact ensureFrom_inside hw _ hharm 0 h0a h0i
+
+/-- **Containment for every history.**  Whatever sequence of `ChildDir` / `Ensure*` calls is made on the nodes of
+    one `DirStructure` tree, with whatever names, every directory that is created, chmod-ed or put in place of a
+    file lies inside the root of the tree. -/
+theorem dirstructure_history_contained (root : Path) (perm : Nat) (hr : isAbs root = true) (calls : List DCall) :
+    ∀ d ∈ dhistory (newDirStructure root perm) calls, Inside root d.1 := by
+  suffices H : ∀ t, DWF t root → ∀ d ∈ dhistory t calls, Inside root d.1 from H _ (dwf_new root perm)
+  induction calls with
+  | nil => intro t _ d hd; simp [dhistory] at hd
+  | cons c cs ih =>
+    intro t hw d hd
+    unfold dhistory at hd
+    dsimp only at hd
+    rw [List.mem_append] at hd
+    rcases hd with hd | hd
+    · cases hr' : (dcall t c).2 with
+      | error e => rw [hr'] at hd; simp at hd
+      | ok ds =>
+        rw [hr'] at hd
+        dsimp only at hd
+        cases c with
+        | childDir h name p =>
+          simp only [dcall] at hr'
+          split at hr' <;> (cases hr'; simp at hd)
+        | ensure h =>
+          simp only [dcall] at hr'
+          split at hr'
+          · rename_i hh; exact ensureAbsPathT_contained hw hr hh _ ds hr' d hd
+          · cases hr'; simp at hd
+        | ensureAbs h p =>
+          simp only [dcall] at hr'
+          split at hr'
+          · rename_i hh; exact ensureAbsPathT_contained hw hr hh _ ds hr' d hd
+          · cases hr'; simp at hd
+        | ensureRel h rel =>
+          simp only [dcall] at hr'
+          split at hr'
+          · rename_i hh; exact ensureAbsPathT_contained hw hr hh _ ds hr' d hd
+          · cases hr'; simp at hd
+        | ensureRelDir h names =>
+          simp only [dcall] at hr'
+          split at hr'
+          · rename_i hh; exact ensureAbsPathT_contained hw hr hh _ ds hr' d hd
+          · cases hr'; simp at hd
+    · exact ih _ (dwf_dcall hw c) d hd
+
+/-- What the code guarantees about the registered children, in every reachable tree: a child's path is the
+    parent's path joined with the very name it is registered (and looked up) under. -/
+theorem dirstructure_children_registered_as_named (root : Path) (perm : Nat) (calls : List DCall) (i p : Nat) (n : DNode)
+    (hn : (treeAfter (newDirStructure root perm) calls)[i]? = some n) (hp : n.parent = some p) :
+    p < i ∧ n.path = join2 ((treeAfter (newDirStructure root perm) calls).pathOf p) n.key :=
+  (dwf_treeAfter (dwf_new root perm) calls).2.2.2 i n hn p hp
+
+/-- In every reachable tree, on every node: a requested absolute path that leaves the root is refused
+    (so a child registered under an escaping name, e.g. `ChildDir("../evil")`, can never be ensured itself). -/
+theorem dirstructure_history_rejects (root : Path) (perm : Nat) (hr : isAbs root = true) (calls : List DCall) (h : Nat)
+    (hh : h < (treeAfter (newDirStructure root perm) calls).length) (dirPath : Path) (hd : isAbs dirPath = true)
+    (hesc : ¬ resolve root <+: resolve dirPath) :
+    ensureAbsPathT (treeAfter (newDirStructure root perm) calls) h dirPath = .error .outside := by
+  have hw := dwf_treeAfter (dwf_new root perm) calls
+  obtain ⟨r', hsl, hres, _⟩ := slashed_root hr
+  unfold ensureAbsPathT
+  rw [topOf_eq_zero hw _ h hh hh]
+  dsimp only
+  rw [hw.2.1, hsl]
+  have hne : clean dirPath ≠ root := by
+    intro heq
+    apply hesc
+    rw [← resolve_clean hd, heq]; exact List.prefix_refl _
+  have hnp : hasPrefix (clean dirPath) (r' ++ [47]) = false := by
+    cases hp : hasPrefix (clean dirPath) (r' ++ [47]) with
+    | false => rfl
+    | true =>
+      exfalso
+      apply hesc
+      rw [clean_abs hd] at hp
+      have := resolve_prefix_of_hasPrefix (resolve_allNormal dirPath) hp
+      rwa [hres] at this
+  simp [hne, hnp]
+
 /-! ### Archive unpacking: zip entry names -/
 
 /-- The destination of an accepted entry lies inside the unpack directory and is what the entry name denotes there. -/
@@ -369,6 +499,17 @@ example : ensureAbsPath (B "/a/root/") (B "/a/root/tmp/../k//m") = .ok [B "/a/ro
 example : ensureAbsPath (B "/a/root") (B "/a/root/") = .ok [B "/a/root"] := by decide
 example : ensureRelPath (B "/a/root") (B "../other/k") = .error .outside := by decide
 example : ensureRelDir (B "/a/root") [B "..", B "root", B "k"] = .ok [B "/a/root", B "/a/root/k"] := by decide
+-- DirStructure histories (seeded C18-r2-2 class): a child registered under an escaping name is inert
+example : (childDir (newDirStructure (B "/a/root") 0o755) 0 (B "../evil") 0o700) =
+    ([⟨none, [], B "/a/root", 0o755⟩, ⟨some 0, B "../evil", B "/a/evil", 0o700⟩], 1) := by decide
+example : dhistory (newDirStructure (B "/a/root") 0o755)
+    [.childDir 0 (B "../evil") 0o700, .ensure 1, .ensureRel 0 (B "evil/sub")] =
+    [(B "/a/root", 0o755), (B "/a/root/evil", 0o755), (B "/a/root/evil/sub", 0o755)] := by decide
+example : dhistory (newDirStructure (B "/a/root") 0o755)
+    [.childDir 0 (B "tmp") 0o700, .childDir 1 (B "sub") 0o750, .childDir 0 (B "tmp") 0o710, .ensureAbs 2 (B "/a/root/tmp/sub/k/m")] =
+    [(B "/a/root", 0o755), (B "/a/root/tmp", 0o710), (B "/a/root/tmp/sub", 0o750), (B "/a/root/tmp/sub/k", 0o750), (B "/a/root/tmp/sub/k/m", 0o750)] := by decide
+example : ensureT (childDir (newDirStructure (B "/a/root") 0o755) 0 (B "../root-old") 0o700).1 1 = .error .outside := by decide
+example : ensureRelPathT (childDir (newDirStructure (B "/a/root") 0o755) 0 (B "x/../../evil") 0o700).1 1 (B "k") = .error .outside := by decide
 -- unpacking (#24): zip slip
 example : unpackDst (B "/s/tmp/thing_v1-0-0") (B "../../../root-other/evil") = .error .insecure := by decide
 example : unpackDst (B "/s/tmp/thing_v1-0-0") (B "/abs") = .ok (B "/s/tmp/thing_v1-0-0/abs") := by decide
